@@ -89,7 +89,7 @@ class Ctx(object):
 
     def field(self, st, base_off, name, n):
         T = st.objs['T']
-        ty = {1: 'unsigned char', 2: 'unsigned short', 8: 'unsigned long'}[n]
+        ty = {1: 'unsigned char', 2: 'unsigned short', 8: 'unsigned long long'}[n]
         return st.canon(mem.load_scalar(st, T, ('add', base_off, C(self.foff(name))), self.ty(ty)))
 
     def tfield(self, st, name):
@@ -146,28 +146,7 @@ def run(tier):
     writers(rep, prog)
 
     # ---------------- find
-    I, outs = cx.run('session_table_find', lambda st: [Val(tp, T0), Val(mp, M0), Val(u16, GEN), Val(u16, SEQ)])
-    ubs(I, 'R16.find')
-    lid = one_loop(I, 'session_table_find')
-    hit = miss = 0
-    for st, v in outs:
-        r = st.canon(v.t)
-        if r == ZERO:
-            miss += 1
-            k = ('sym', 'iter:' + lid, 0, INF)
-            rep.check(st.dom(k).lo >= cx.cap, 'R16.find', 'miss|full-scan', 'the lookup gives up after index %s without having scanned all %d entries' % (st.dom(k), cx.cap),
-                      function='session_table_find', file=fnf)
-        elif r[0] == 'ptr' and r[1] == 'T':
-            hit += 1
-            rep.check(cx.key_matches(st, r[2]), 'R16.find', 'hit|key', 'the lookup returns entry at %s without having established valid && address equal && generation equal' % short(r[2]),
-                      function='session_table_find', file=fnf, sample={'returns': short(r)})
-            l = lin_of(r[2])
-            rep.check(l.k == cx.eoff and list(l.co.values()) == [cx.esz], 'R16.find', 'hit|index', 'returned pointer %s is not entries[k]' % short(r), function='session_table_find', file=fnf)
-        else:
-            rep.fail('R16.find', 'ret', 'lookup returns %s' % short(r), function='session_table_find', file=fnf)
-    rep.check(hit and miss, 'R16.find', 'paths', 'lookup has %d hit and %d miss outcomes' % (hit, miss), function='session_table_find', file=fnf)
-    ind = I.loop_info[lid]['induction']
-    rep.check(sorted(ind.values()) == [1], 'R16.find', 'index-step', 'lookup index does not advance by 1 (%s)' % ind, function='session_table_find', file=fnf)
+    check_find(rep, cx, 'R16.find')
 
     # ---------------- add
     I, outs = cx.run('session_table_add', lambda st: [Val(tp, T0), Val(mp, M0), Val(u16, GEN), Val(u16, SEQ)])
@@ -331,6 +310,41 @@ def run(tier):
                   'for-all, 60 s expiry. The step-by-step equivalence with a dictionary model over arbitrary histories follows by induction and is not itself enumerated; '
                   'callers outside the parsed units that poke entry->complete directly (Darwin) are not covered.',
                   'abstract interpretation with symbolic-index loop summaries; pairing / who-may-write rules', exhaustive=False)
+
+
+def check_find(rep, cx, rule):
+    """The lookup scans all slots and returns an entry only if it is valid and address + generation are equal."""
+    fnf = 'lltdResponder/lltdAutomata.c'
+    tp, mp, u16 = cx.ty('session_table *'), cx.ty('const uint8_t *'), cx.ty('unsigned short')
+    T0, M0 = ('ptr', 'T', ZERO), ('ptr', 'MAC', ZERO)
+
+    def ubs(I, r):
+        for ob in I.obs.values():
+            if not ob.ok:
+                rep.fail(r, '%s|%s' % (ob.fn, ob.kind), ob.msg, node=ob.node, function=ob.fn)
+    I, outs = cx.run('session_table_find', lambda st: [Val(tp, T0), Val(mp, M0), Val(u16, GEN), Val(u16, SEQ)])
+    ubs(I, rule)
+    lid = one_loop(I, 'session_table_find')
+    hit = miss = 0
+    for st, v in outs:
+        r = st.canon(v.t)
+        if r == ZERO:
+            miss += 1
+            k = ('sym', 'iter:' + lid, 0, INF)
+            rep.check(st.dom(k).lo >= cx.cap, rule, 'miss|full-scan', 'the lookup gives up after index %s without having scanned all %d entries' % (st.dom(k), cx.cap),
+                      function='session_table_find', file=fnf)
+        elif r[0] == 'ptr' and r[1] == 'T':
+            hit += 1
+            rep.check(cx.key_matches(st, r[2]), rule, 'hit|key', 'the lookup returns entry at %s without having established valid && address equal && generation equal' % short(r[2]),
+                      function='session_table_find', file=fnf, sample={'returns': short(r)})
+            l = lin_of(r[2])
+            rep.check(l.k == cx.eoff and list(l.co.values()) == [cx.esz], rule, 'hit|index', 'returned pointer %s is not entries[k]' % short(r), function='session_table_find', file=fnf)
+        else:
+            rep.fail(rule, 'ret', 'lookup returns %s' % short(r), function='session_table_find', file=fnf)
+    rep.check(hit and miss, rule, 'paths', 'lookup has %d hit and %d miss outcomes' % (hit, miss), function='session_table_find', file=fnf)
+    ind = I.loop_info[lid]['induction']
+    rep.check(sorted(ind.values()) == [1], rule, 'index-step', 'lookup index does not advance by 1 (%s)' % ind, function='session_table_find', file=fnf)
+
 
 
 def one_loop(I, fname):
